@@ -289,5 +289,11 @@ def main() -> int:
     ok = g.subgraphs[0].name == "cluster0" and g.edges == [("0", "out.0", "1", "in.-1", {"label": ("str", "T<a>"), "color": ("str", "#fff")})] and D.label_info(g.subgraphs[0].nodes[0][1]["label"][1]) == ("x", ["0"], [])
     print(f"{'ok  ' if ok else 'FAIL'} R9 reads clusters, ports and edges")
     bad += not ok
+    g = D.parse('digraph { edge [color=red penwidth=2]\n node [shape=plain]\n subgraph cluster0 { 0 }\n 0 -> 1 [color=blue]\n "edge" [x=y] }')
+    n += 1
+    ok = (g.edges == [("0", None, "1", None, {"color": ("id", "blue"), "penwidth": ("id", "2")})] and [x[0] for x in g.nodes] == ["edge"]
+          and g.subgraphs[0].nodes == [("0", {"shape": ("id", "plain")})])
+    print(f"{'ok  ' if ok else 'FAIL'} R9 default-attribute statements are not nodes and are inherited")
+    bad += not ok
     print(f"selftest: {n - bad}/{n} expectations hold")
     return 1 if bad else 0
